@@ -280,6 +280,14 @@ def check(case, ctx):
 @st.composite
 def cases(draw, prof, maxlen):
     spec = draw(specgen.specs(prof))
+    cacheable = [d for d in spec["defs"] if not d.get("nocache")]
+    if cacheable and draw(st.integers(0, 3)) == 0:
+        # a dataset and a copy derived from it with options that change nothing for it: one computation serves both
+        d = draw(st.sampled_from(cacheable))
+        twin = {"k": "derived", "base": d["name"], "op": draw(st.sampled_from(["with_options", "with_default_options"])),
+                "opts": draw(st.sampled_from([{}, {"Z1": 1}]))}
+        items = [{"k": "ref", "name": d["name"]}, twin]
+        spec = dict(spec, root={"k": "tuple", "items": [spec["root"]] + (items if draw(st.booleans()) else items[::-1])})
     p = draw(st.sampled_from([0.7, 0.9, 0.97]))
     steps = [{"t": "fresh", "o": draw(U.option_dicts(p_present=p))}]
     n = draw(st.integers(2, maxlen))
